@@ -458,10 +458,13 @@ def mate_hunt_positions(seed, n):
     return out
 
 
-def collision_pairs():
-    """committed pairs of different positions with equal keys on the pinned engine (corpus/collisions.txt)"""
+def collision_pairs(near=False):
+    """committed pairs of different positions with equal keys on the pinned engine (corpus/collisions.txt); near=True: also the pairs
+    whose keys agree in the upper 48 bits only (corpus/near_collisions.txt)"""
     out = []
-    p = os.path.join(VERIF, "corpus", "collisions.txt")
+    if near:
+        out = collision_pairs(False)
+    p = os.path.join(VERIF, "corpus", "near_collisions.txt" if near else "collisions.txt")
     if not os.path.exists(p):
         return out
     for line in open(p):
@@ -470,4 +473,52 @@ def collision_pairs():
             continue
         a, _, b = line.partition("|")
         out.append((a.strip(), b.strip()))
+    return out
+
+
+def ep_discovered_check_families():
+    """an en-passant capture that uncovers a line THROUGH THE CAPTURED PAWN'S SQUARE from a slider of the capturing side onto the ENEMY king
+    (diagonals and the rank; both colours; every file): the position after the capture is a check that neither square of the moved pawn
+    explains (seeded change r8C12).  -> list of (family, fen)"""
+    out = []
+    for white in (True, False):
+        r5 = 4 if white else 3                      # rank index of both pawns before the capture
+        up = (lambda c: c.upper()) if white else (lambda c: c.lower())
+        dn = (lambda c: c.lower()) if white else (lambda c: c.upper())
+        for cf in range(8):                         # file of the pawn that just double-pushed (captured)
+            for of in (cf - 1, cf + 1):             # file of the capturing pawn
+                if not 0 <= of < 8:
+                    continue
+                for (dr, df) in ((1, 1), (1, -1), (-1, 1), (-1, -1), (0, 1), (0, -1)):
+                    for ds in (1, 2):               # slider ds steps from the captured pawn on one side, king dk steps on the other
+                        for dk in (1, 2, 3):
+                            sr, sf = r5 - dr * ds, cf - df * ds
+                            kr, kf = r5 + dr * dk, cf + df * dk
+                            if not (0 <= sr < 8 and 0 <= sf < 8 and 0 <= kr < 8 and 0 <= kf < 8):
+                                continue
+                            g = {(r5, cf): dn("p"), (r5, of): up("p")}
+                            if (sr, sf) in g or (kr, kf) in g:
+                                if dr != 0:
+                                    continue
+                                # rank case: the capturing pawn may stand between: allowed (both pawns leave the rank)
+                                if (sr, sf) in g or (kr, kf) in g:
+                                    continue
+                            path = [(r5 - dr * i, cf - df * i) for i in range(1, ds)] + [(r5 + dr * i, cf + df * i) for i in range(1, dk)]
+                            if any(q in g for q in path) and dr != 0:
+                                continue
+                            g[(sr, sf)] = up("q" if (ds + dk) % 2 else ("r" if dr == 0 else "b"))
+                            g[(kr, kf)] = dn("k")
+                            # own king far from everything
+                            for ok in ((0, 0), (0, 7), (7, 0), (7, 7), (0, 3), (7, 4)):
+                                if ok not in g and max(abs(ok[0] - kr), abs(ok[1] - kf)) > 1 and not any(
+                                        ch.isupper() != white and ch.lower() != "k" and _attacks_sq(g, sq, ch, ok) for sq, ch in g.items()):
+                                    g[ok] = up("k")
+                                    break
+                            else:
+                                continue
+                            ep = "abcdefgh"[cf] + ("6" if white else "3")
+                            # the enemy king must not already be in check (the side that just moved cannot be in check)
+                            if any(ch.isupper() == white and ch.lower() != "k" and _attacks_sq(g, sq, ch, (kr, kf)) for sq, ch in g.items()):
+                                continue
+                            out.append(("ep-discovers-check", board_to_fen(g, "w" if white else "b", None, ep, 0, 3)))
     return out
